@@ -17,7 +17,7 @@ class Rec(Stream):
         Stream.__init__(self, upstream, **kw)
 
     def update(self, x, who=None, metadata=None):
-        self.store.append((x, metadata))
+        self.store.append((x, list(metadata) if isinstance(metadata, list) else metadata))
         if self.glog is not None:
             self.glog.append((self.tag, x))
         return []
